@@ -53,7 +53,7 @@ theorem cancelTracked_eq (bs : List Browser) :
 /-- `cancel()` from another thread: the queue is drained (join), the entry forgotten -/
 theorem syncCancel_eq (b : Browser) :
     syncCancel b = { b with cancelled := true, timer := false, listening := false, queued := 0, zcTracked := false } := by
-  simp [syncCancel, asyncCancel_eq, cancelJoins_eq, remove_listener_forgets_holds]
+  simp [syncCancel, asyncCancel_eq, cancelJoins_eq, remove_listener_forgets_holds, thread_cancel_schedules_async_cancel_holds]
 
 /-- the timeout handle of a wait and the notification both leave a finished future alone (`_set_future_none_if_not_done`) -/
 theorem timerOnFinished_eq : timerOnFinished = [] := by
@@ -1495,7 +1495,7 @@ theorem LoopInv'_append (lt lr : Bool) (cl : List Close) (c : Close) (hc : c.sta
     exact l3 a b ca cb (key a ca ha sa) (key b cb hb sb) sa sb
 
 /-- `LoopInv` is preserved by every block except a sync close entering `_shutdown_threads()` while another one is
-about to stop the loop (finding D32) -/
+about to stop the loop (finding D34) -/
 theorem LoopInv_step (h : Host) (b : Block) (h' : Host) (o : List Out) (hl : LoopInv h) (hn : b.overlapsStop h = false)
     (hs : step h b = some (h', o)) : LoopInv h' := by
   have hns : ∀ k, CStage.unregistering k ≠ .stopping := by intro k hh; cases hh
